@@ -961,7 +961,11 @@ class HTTPResponse(BaseHTTPResponse):
 
         flush_decoder = amt is None or (amt != 0 and not data)
 
-        if not data and len(self._decoded_buffer) == 0:
+        if (
+            not data
+            and len(self._decoded_buffer) == 0
+            and not (flush_decoder and decode_content and self._decoder)
+        ):
             return data
 
         if amt is None:
@@ -990,6 +994,9 @@ class HTTPResponse(BaseHTTPResponse):
                 # For example, the GZ file header takes 10 bytes, we don't want to read
                 # it one byte at a time
                 data = self._raw_read(amt)
+                # The end of the body may only show up here: the decoder must
+                # then be flushed so that an incomplete stream is reported.
+                flush_decoder = not data
                 decoded_data = self._decode(data, decode_content, flush_decoder)
                 self._decoded_buffer.put(decoded_data)
             data = self._decoded_buffer.get(amt)
@@ -1076,6 +1083,11 @@ class HTTPResponse(BaseHTTPResponse):
 
                 if data:
                     yield data
+
+            # Everything has been handed out; one more read at the end of
+            # the body lets the decoder report an incomplete stream.
+            if amt != 0 and self._decoder is not None:
+                self.read(amt=amt, decode_content=decode_content)
 
     # Overrides from io.IOBase
     def readable(self) -> bool:
